@@ -505,6 +505,13 @@ def build(sess):
         'arguments are Python ints (None for omitted optional ones); device acknowledges every command',
     )
     coverage_of_helpers(sess)
+    # the helpers are verified against the CALL-SITE contracts of EBB3.command and ebb_serial.command; those contracts are re-proved of
+    # the real bodies here (same obligations as C05 / C07), so that a change inside command() that re-sends or rewrites a request
+    # fails this property's check too
+    from . import c05, c07
+    kf = native('n_serial', 'kf_c05_1', {})
+    c05.check_request(sess, 'command', bool(kf.get('reproduces')))
+    c07.check_command(sess)
     check_ebb3_helpers(sess)
     check_legacy_helpers(sess)
     check_pause(sess)
